@@ -100,7 +100,7 @@ def runSpec (kv : List (String × String)) : String :=
           && (stack.drop 1 ++ [s]).all (fun x => !skip.contains x))
       | none => true
     | _ => true
-  s!"reach={csv (reachSet g skip d)} bad={semi bad}"
+  s!"reach={csv (reachSet g skip d)} ident={csv (identSet g skip d)} bad={semi bad}"
 
 def step (line : String) : String :=
   match words line with
